@@ -172,7 +172,10 @@ def cases(draw, path, focus=None, family=None):
         names = list(rest['req']) + [n for n, _ in rest['opt']] + list(rest['kwreq']) + [n for n, _ in rest['kwopt']] + ['*', '**'] + S.XKW[:2] + (['self'] if kind == 'method' else [])
         # multi-letter names ('func', 'ignored', 'key', 'self') whose LETTERS are parameter names of their own: a bare string must be taken as one name
         multi = [n for n in S.XKW if len(n) > 1] + (['self'] if kind == 'method' else [])
-        if draw(st.integers(0, 2)) == 0:
+        if (rest.get('kwreq') or rest.get('kwopt')) and draw(st.integers(0, 2)) == 0:
+            # '**' ignores the EXTRA keywords only: keyword-only parameters (required or defaulted) still discriminate
+            items = ['**'] + (['*'] if draw(st.booleans()) else [])
+        elif draw(st.integers(0, 2)) == 0:
             items = [draw(st.sampled_from(multi))]
         else:
             items = draw(st.lists(st.sampled_from(names), min_size=1, max_size=2, unique=True))
